@@ -55,6 +55,7 @@ class TU:
         self.regs = []       # (vid, cpp type, custom message or None)
         self.grammars = []
         self.chain_sel = set()   # registry ids selected in the chain-directed selector variant
+        self.no_action = set()   # registry ids that must not carry an action with input (they contain a discard)
 
     def vid(self, cpp, custom=None):
         if cpp not in self.reg:
@@ -151,6 +152,16 @@ class G:
             return self.vis("bytes< %d >" % n, self.add("BYTES", a0=n))
         if k == "bof":
             return self.vis("bof", self.add("BOF"))
+        if k == "require":
+            n = r.randint(0, 4)
+            return self.vis("require< %d >" % n, self.add("REQUIRE", a0=n))
+        if k == "everything":
+            # documented: equivalent to until< eof, any >
+            body = self.add("SEQ", kids=(self.add("NOTAT", kids=(self.add("EOF_"),)), self.add("ANY")))
+            return self.vis("everything", self.add("SEQ", kids=(self.add("STAR", kids=(body,)), self.add("EOF_"))))
+        if k == "discard":
+            self.features |= GF_DISCARD
+            return self.vis("discard", self.add("DISCARD"))
         raise Exception(k)
 
     # ---- gadgets of the context matrix
@@ -252,6 +263,7 @@ class G:
             r, p = ids
             return g.vis("pad_opt< %s >" % tmplargs(), g.add("SEQ", kids=(g.add("STAR", kids=(p,)), g.add("OPT", kids=(g.add("SEQ", kids=(r, g.add("STAR", kids=(p,)))),)))))
         if k == "minus":
+            g.features |= GF_LAZY_UNSAFE
             m, s = ids
             return g.vis("minus< %s >" % tmplargs(), g.add("REMATCH", kids=(m, g.add("NOTAT", kids=(g.add("SEQ", kids=(s, g.add("EOF_"))),)))))
         if k == "rematch":
@@ -344,6 +356,10 @@ class G:
             if avail and r.random() < 0.25:
                 i = r.choice(avail)
                 return (self.names[i], self.named_ids[i])
+            if self.profile == "buf" and r.random() < 0.12:
+                return self.atom("require")
+            if self.profile in ("buf", "conv") and r.random() < 0.04:
+                return self.atom("everything")
             return self.atom()
         ops = list(self.CORE_OPS)
         p = self.profile
@@ -455,6 +471,31 @@ class G:
                 self.bodies.append(("seq< one< 'a' >, opt< %s >, %s >" % (self.names[j], bcpp), self.add("SEQ", kids=(a[1], o[1], inner[1]))))
         self.close()
 
+    def buf_grammar(self):
+        """named rules without discard, then a top rule that discards only between top-level parts (documented-safe points)"""
+        r = self.rnd
+        nn = r.randint(1, 3)
+        self.names = ["%s::R%d" % (self.gname, i) for i in range(nn)] + ["%s::T" % self.gname]
+        self.named_ids = [self.add("NAMED", vid=self.tu.vid(n)) for n in self.names]
+        for i in range(nn):
+            cpp, cid = self.expr(3, list(range(i)))
+            self.finish_named(i, cpp, cid)
+        avail = list(range(nn))
+        parts = [self.expr(2, avail), self.atom("discard"), self.expr(2, avail), self.atom("discard")]
+        if r.random() < 0.7:
+            it = self.op("seq", [self.expr(2, avail), self.atom("discard")])
+            self.tu.no_action.add(self.tu.vid(it[0]))
+            st = self.op("star", [it])
+            self.tu.no_action.add(self.tu.vid(st[0]))
+            parts.append(st)
+        parts.append(self.expr(2, avail))
+        top = self.op("seq", parts)
+        self.tu.no_action.add(self.tu.vid(top[0]))
+        self.tu.no_action.add(self.tu.vid(self.names[nn]))
+        self.tu.no_action.add(self.tu.vid("discard"))
+        self.finish_named(nn, top[0], top[1])
+        self.close()
+
     def close(self):
         for i, nid in enumerate(self.named_ids):
             k = self.nodes[nid]
@@ -532,6 +573,72 @@ def ctx_grammar(tu, gname, rnd, tmpl, arity, nums, prop, slot, gadget, mode):
     return g
 
 
+# ---------------------------------------------------------------------- cycles (C11)
+CYC_EXTRA = [("state", 1, (1,), "C11"), ("action_b", 1, (), "C11"), ("control_b", 1, (), "C11"), ("if_apply", 1, (0,), "C11"),
+             ("try_catch_std_raise_nested", 1, (3,), "C11"), ("try_catch_type_raise_nested", 1, (1,), "C11")]
+CYC_FILLERS = ["nullable", "predicate", "failing", "consuming"]
+CYC_VARIANTS = ["direct", "indirect", "guarded", "loopbody", "second_alt"]
+NO_ANALYZE_TRAITS = ("strict", "star_strict")
+
+
+def cyc_filler(g, kind, i):
+    if kind == "nullable":
+        return g.op("opt", [g.atom("one", "a")])
+    if kind == "predicate":
+        return g.op("at", [g.atom("one", "ab"[i % 2])])
+    if kind == "failing":
+        return g.atom("failure")
+    return g.atom("one", "a")
+
+
+def cyc_grammar(tu, gname, rnd, tmpl, arity, nums, slot, filler, variant):
+    g = G(tu, gname, rnd, "cyc", "C11")
+    g.cell = "%s/%d:%d:%s:%s" % (tmpl, arity, slot, filler, variant)
+    g.alpha.update("ab")
+    g.names = ["%s::B" % gname, "%s::A" % gname]
+    g.named_ids = [g.add("NAMED", vid=tu.vid(n)) for n in g.names]
+    A = (g.names[1], g.named_ids[1])
+    B = (g.names[0], g.named_ids[0])
+    if variant == "direct":
+        rec = A
+    elif variant == "indirect":
+        rec = B
+    elif variant == "guarded":
+        rec = g.op("seq", [g.atom("one", "a"), A])
+    elif variant == "second_alt":
+        rec = g.op("sor", [cyc_filler(g, filler, 1), A])
+    else:
+        rec = g.op("opt", [g.atom("one", "b")]) if rnd.random() < 0.5 else g.op("at", [g.atom("any")])
+    xs = []
+    for i in range(arity):
+        xs.append(rec if i == slot else cyc_filler(g, filler, i))
+    c = g.op(tmpl, xs, nums)
+    # B (used by the indirect variant; harmless otherwise)
+    bb = g.op("seq", [g.op("opt", [g.atom("one", "b")]), A])
+    g.finish_named(0, bb[0], bb[1])
+    # A : sor< C, one<'b'> > would add an exit; keep A = C so that the cycle is the only way
+    if rnd.random() < 0.5:
+        c = g.op("sor", [c, g.atom("one", "b")])
+    g.finish_named(1, c[0], c[1])
+    g.close()
+    return g
+
+
+def cyc_cells():
+    cells = []
+    for (tmpl, arity, nums, prop) in list(CTX_TEMPLATES) + CYC_EXTRA:
+        if tmpl in NO_ANALYZE_TRAITS:
+            continue
+        for slot in range(arity):
+            for filler in CYC_FILLERS:
+                for variant in CYC_VARIANTS:
+                    # analyze_traits of if_apply< R, ... > and until< R > name R::rule_t: a direct self-reference there is an incomplete type (does not compile)
+                    if variant == "direct" and slot == 0 and (tmpl == "if_apply" or (tmpl == "until" and arity == 1)):
+                        continue
+                    cells.append((tmpl, arity, nums, slot, filler, variant))
+    return cells
+
+
 def ctx_cells():
     cells = []
     for (tmpl, arity, nums, prop) in CTX_TEMPLATES:
@@ -548,7 +655,9 @@ def kinds_table(tu, rnd, variant, profile):
     5: void + state/action/control switches attached through the action's match() (C13)"""
     ks = []
     for (vid, cpp, custom) in tu.regs:
-        if variant == 5:
+        if vid in tu.no_action:
+            ks.append(A_NONE)
+        elif variant == 5:
             ks.append(rnd.choice([A_NONE, A_NONE, A_APPLY, A_APPLY, A_APPLY0, A_CHANGE_STATE, A_CHANGE_STATES, A_CHANGE_ACTION, A_CHANGE_ACTION_AND_STATE,
                                   A_CHANGE_CONTROL, A_ENABLE_ACTION, A_DISABLE_ACTION]))
         elif variant == 0:
@@ -650,8 +759,8 @@ def emit_tu(tu, seed, variants=(0, 1, 2, 3, 4, 5)):
     out.append("static const mon::grammar GS[] = {")
     for g in tu.grammars:
         salt = rnd.randrange(1 << 30)
-        out.append('  { "%s", "%s", "%s", "%s", "%s", %s::nodes, sizeof( %s::nodes ) / sizeof( %s::nodes[ 0 ] ), %d, "%s", %d, MON_KINDS, MON_KINDS_B, MON_SELS, %du, %du, &mon::run_entry< %s > },'
-                   % (g.gname, cstr(g.text()), g.profile, cstr(g.cell), g.prop, g.gname, g.gname, g.gname, g.top, cstr(g.alphabet), len(g.alphabet), salt, g.features, g.names[-1]))
+        out.append('  { "%s", "%s", "%s", "%s", "%s", %s::nodes, sizeof( %s::nodes ) / sizeof( %s::nodes[ 0 ] ), %d, "%s", %d, MON_KINDS, MON_KINDS_B, MON_SELS, %du, %du, &mon::run_entry< %s >, MON_ANALYZE_ENTRY( %s ) },'
+                   % (g.gname, cstr(g.text()), g.profile, cstr(g.cell), g.prop, g.gname, g.gname, g.gname, g.top, cstr(g.alphabet), len(g.alphabet), salt, g.features, g.names[-1], g.names[-1]))
     out.append("};")
     out.append("int main( int argc, char** argv ) {")
     out.append("  mon::set_registry( REGS, sizeof( REGS ) / sizeof( REGS[ 0 ] ), CUSTOM );")
@@ -679,6 +788,19 @@ def make_tus(profile, seed, count, per_tu=10, prop=None):
                 gi += 1
             tus.append(("ctx-%d-%d" % (seed, i // per_tu), emit_tu(tu, seed * 977 + i), len(tu.grammars)))
         return tus
+    if profile == "cyc":
+        cells = cyc_cells()
+        rnd.shuffle(cells)
+        if count and count < len(cells):
+            cells = cells[:count]
+        gi = 0
+        for i in range(0, len(cells), per_tu):
+            tu = TU()
+            for (tmpl, arity, nums, slot, filler, variant) in cells[i:i + per_tu]:
+                tu.grammars.append(cyc_grammar(tu, "g%d" % gi, rnd, tmpl, arity, nums, slot, filler, variant))
+                gi += 1
+            tus.append(("cyc-%d-%d" % (seed, i // per_tu), emit_tu(tu, seed * 977 + i), len(tu.grammars)))
+        return tus
     if profile == "chain":
         gi = 0
         specs = [(k, t) for k in (5, 6, 7, 8, 9, 10, 11) for t in (False, True)]
@@ -695,7 +817,10 @@ def make_tus(profile, seed, count, per_tu=10, prop=None):
         tu = TU()
         for _ in range(min(per_tu, count - i)):
             g = G(tu, "g%d" % gi, rnd, profile, prop or default_prop)
-            g.random_grammar()
+            if profile == "buf":
+                g.buf_grammar()
+            else:
+                g.random_grammar()
             tu.grammars.append(g)
             gi += 1
         tus.append(("%s-%d-%d" % (profile, seed, i // per_tu), emit_tu(tu, seed * 977 + i), len(tu.grammars)))
